@@ -104,7 +104,7 @@ def run(tier):
         if c not in good:
             continue
         for (m_, p_, v_) in lst:
-            variants.append(dict(kind="stock", case=c, sid="stock[%s|%s.%s=%s]" % (c, m_, p_, v_), set_param=(m_, p_, v_), set_all=True, baseline_ok=True,
+            variants.append(dict(kind="stock", case=c, sid="stock[%s|%s.%s=%s]" % (c, m_, p_, v_), set_param=(m_, p_, v_), set_all=True, assert_inside=(m_ == "IEEEG1"), baseline_ok=True,
                                  baseline_at_limit=at_limit[c], probes=False, flat=True))
     vres = run_tasks("vh.initdrv:task", variants, nproc=NCPU, timeout=1200)
     tasks = tasks + variants
